@@ -179,3 +179,84 @@ Theorem localindex_result_typed : forall axis c c' ws,
   exists t', localindex_ty (type_of c) axis = Ok t' /\ Forall (has_type t') ws.
 Proof. exact Proofs_Closure5.localindex_result_typed. Qed.
 Print Assumptions localindex_result_typed.
+
+(* ---- append to coq/Props_C11.v (after the existing theorems); import line first ---- *)
+From AwkV Require Import Ops_SortAxes Proofs_Closure7 Proofs_Closure8 Proofs_Closure9 Proofs_Closure10.
+
+(* ---------------------------------------------------------------- closure, second batch: hypotheses removed *)
+(* carry / range slicing: every valid layout, every index list -- no "has a value", no "indices in range" (success implies it) *)
+Theorem closure_carry : forall c ix c', Valid None c -> carry c ix = Ok c' -> Valid None c'.
+Proof. exact carry_valid_full. Qed.
+Print Assumptions closure_carry.
+Theorem closure_crange : forall c a b c', Valid None c -> crange c a b = Ok c' -> Valid None c'.
+Proof. exact crange_valid_full. Qed.
+Print Assumptions closure_crange.
+Theorem closure_carry_length_class : forall c ix c', Valid None c -> carry c ix = Ok c' ->
+  Valid None c' /\ clen c' = zlen ix /\ optionlike c' = optionlike c /\ unionlike c' = unionlike c.
+Proof. exact carry_valid_len. Qed.
+Print Assumptions closure_carry_length_class.
+
+(* record-field projection: "has a value" removed; what is left is the model's missing simplify_optiontype *)
+Theorem closure_field_novalue_partial : forall k c c',
+  Valid None c -> fc_frag k false c = true -> field_content k c = Ok c' -> Valid None c'.
+Proof. exact field_content_preserves_valid_novalue_partial. Qed.
+Print Assumptions closure_field_novalue_partial.
+Theorem closure_field_nopt : forall k c c',
+  Valid None c -> nopt c = true -> field_content k c = Ok c' -> Valid None c'.
+Proof. exact field_content_preserves_valid_nopt. Qed.
+Print Assumptions closure_field_nopt.
+
+(* flatten: every valid layout, every axis -- "has a value" removed *)
+Theorem closure_flatten_full : forall axis c c',
+  Valid None c -> flatten_model axis c = Ok c' -> Valid None c'.
+Proof. exact flatten_preserves_valid_full. Qed.
+Print Assumptions closure_flatten_full.
+
+(* sort along a non-innermost axis, and the sort entry point for every axis: every valid layout, no hypothesis *)
+Theorem closure_sort_axes : forall asc axis c c',
+  Valid None c -> sort_axes_model asc axis c = Ok c' -> Valid None c'.
+Proof. exact sort_axes_preserves_valid. Qed.
+Print Assumptions closure_sort_axes.
+Theorem closure_sort_all : forall asc argsort axis c c',
+  Valid None c -> sort_model_all asc argsort axis c = Ok c' -> Valid None c'.
+Proof. exact sort_all_preserves_valid. Qed.
+Print Assumptions closure_sort_all.
+
+(* every modelled operation, each with exactly the hypothesis that is left (table in Proofs_Closure9.v; flatten: none, Proofs_Closure10.v) *)
+Theorem closure_all_modelled_operations : forall c, Valid None c ->
+  (forall axis c', num_model axis c = Ok c' -> Valid None c') /\
+  (forall axis c', localindex_model axis c = Ok c' -> Valid None c') /\
+  (forall target axis c', ax_frag Qpad c axis = true -> rpad_model target axis c = Ok c' -> Valid None c') /\
+  (forall target axis c', ax_frag Qpad c axis = true -> rpadclip_model target axis c = Ok c' -> Valid None c') /\
+  (forall n repl axis c', ax_frag Qcomb c axis = true -> comb_model n repl axis c = Ok c' -> Valid None c') /\
+  (forall k c', fc_frag k false c = true -> field_content k c = Ok c' -> Valid None c') /\
+  (forall ks c', fields_content ks c = Ok c' -> Valid None c') /\
+  (forall k what c', Valid None what -> setfield_model k c what = Ok c' -> Valid None c') /\
+  (forall value c', Valid None value -> unionlike value = false -> fn_frag c = true ->
+                    fillna_model value c = Ok c' -> Valid None c') /\
+  (forall axis c', flatten_model axis c = Ok c' -> Valid None c') /\
+  (forall asc argsort axis c', sort_model asc argsort axis c = Ok c' -> Valid None c') /\
+  (forall asc axis c', sort_axes_model asc axis c = Ok c' -> Valid None c') /\
+  (forall asc argsort axis c', sort_model_all asc argsort axis c = Ok c' -> Valid None c') /\
+  (forall r axis mask keepdims c', red_frag mask keepdims c axis = true ->
+                                   reduce_model r axis mask keepdims c = Ok c' -> Valid None c') /\
+  (forall ix c', carry c ix = Ok c' -> Valid None c') /\
+  (forall a b c', crange c a b = Ok c' -> Valid None c') /\
+  (forall items c', nostr c = true -> gi_frag c = true -> getitem_model items c = Ok c' -> Valid None c').
+Proof. exact closure_all_modelled_full. Qed.
+Print Assumptions closure_all_modelled_operations.
+
+(* the operations closed on EVERY valid layout with no hypothesis at all *)
+Theorem closure_unconditional_operations : forall c, Valid None c ->
+  Valid None (expand c) /\
+  (forall axis c', num_model axis c = Ok c' -> Valid None c') /\
+  (forall axis c', localindex_model axis c = Ok c' -> Valid None c') /\
+  (forall ks c', fields_content ks c = Ok c' -> Valid None c') /\
+  (forall k what c', Valid None what -> setfield_model k c what = Ok c' -> Valid None c') /\
+  (forall axis c', flatten_model axis c = Ok c' -> Valid None c') /\
+  (forall asc argsort axis c', sort_model_all asc argsort axis c = Ok c' -> Valid None c') /\
+  (forall r axis mask keepdims c', keepdims || negb mask = true -> reduce_model r axis mask keepdims c = Ok c' -> Valid None c') /\
+  (forall ix c', carry c ix = Ok c' -> Valid None c') /\
+  (forall a b c', crange c a b = Ok c' -> Valid None c').
+Proof. exact closure_unconditional_full. Qed.
+Print Assumptions closure_unconditional_operations.
